@@ -1896,8 +1896,10 @@ class Isometry(projective.Transformation, HyperbolicObject):
         if like is None:
             like = angle
 
+        # integer_type=False: an integer-typed angle (e.g. np.int64(1))
+        # must not give an integer matrix that truncates cos/sin
         affine = utils.identity(
-            dimension, like=like, **kwargs
+            dimension, like=like, integer_type=False, **kwargs
         )
 
         affine[0:2, 0:2] = utils.rotation_matrix(
@@ -1905,7 +1907,7 @@ class Isometry(projective.Transformation, HyperbolicObject):
         )
 
         return Isometry.elliptic(dimension, affine,
-                                 like=like, **kwargs)
+                                 like=affine, **kwargs)
 
     @staticmethod
     def from_sl2(matrix, **kwargs):
